@@ -146,3 +146,19 @@ B("c15-m2s-defaults", "C15", "C15.R3", (W, "MultiToSingleWrapper.__init__", "rep
 B("c15-m2s-reset-skips", "C15", "C15.R3", (W, "MultiToSingleWrapper.reset", "delete", "timestep = self._aggregate_timestep(timestep)"))
 B("c15-conv-nvec", "C15", "C15.R4", ("jumanji/specs.py", "jumanji_specs_to_gym_spaces", "expr", "gym.spaces.MultiDiscrete(nvec=spec.num_values, seed=None)", "gym.spaces.MultiDiscrete(nvec=spec.maximum, seed=None)"))
 T("c15-twin-key-names", "C15", (W, "JumanjiToGymWrapper.reset", "replace_stmt", "key, self._key = jax.random.split(self._key)", "k1, k2 = jax.random.split(self._key)\nself._key = k2\nkey = k1"))
+
+# ---------------------------------------------------------------- C04.R3b
+B("c04-knapsack-strict", "C04", "C04.R3b", (P + "knapsack/env.py", "Knapsack._state_to_observation", "expr", "state.weights <= state.remaining_budget", "(state.remaining_budget - state.weights) > 0"))
+B("c04-tsp-mask-polarity", "C04", "C04.R3b", (R + "tsp/env.py", "TSP._state_to_observation", "kwarg", "action_mask", "~state.visited_mask", "state.visited_mask"))
+T("c04-twin-knapsack-flip", "C04", (P + "knapsack/env.py", "Knapsack._state_to_observation", "expr", "state.weights <= state.remaining_budget", "state.remaining_budget >= state.weights"))
+
+# ---------------------------------------------------------------- C05
+B("c05-snake-no-invalid-term", "C05", "C05.R1", (R + "snake/env.py", "Snake.step", "expr", "~is_valid | snake_completed | (step_count >= self.time_limit)", "snake_completed | (step_count >= self.time_limit)"))
+B("c05-tsp-else-not-identity", "C05", "C05.R2", (R + "tsp/env.py", "TSP.step", "expr", "lambda *_: state", "lambda *_: state.replace(position=action)"))
+B("c05-knapsack-wrong-guard", "C05", "C05.R1", (P + "knapsack/env.py", "Knapsack.step", "expr", "no_items_available | ~is_valid", "no_items_available"))
+B("c05-maze-noop-branch", "C05", "C05.R3", (R + "maze/env.py", "Maze.step", "expr", "jax.lax.select(state.action_mask[action], action, 4)", "jax.lax.select(state.action_mask[action], action, 0)"))
+B("c05-flatpack-unguarded-placed", "C05", "C05.R3", (P + "flat_pack/env.py", "FlatPack.step", "expr", "action_is_legal", "True", 2))
+B("c05-cleaner-move-anyway", "C05", "C05.R2", (R + "cleaner/env.py", "Cleaner", "expr", "jnp.where(action_is_valid[:, None], MOVES[action], 0)", "MOVES[action]"))
+B("c05-2048-spawn-always", "C05", "C05.R3", (L + "game_2048/env.py", "Game2048.step", "expr", "state.action_mask[action]", "True"))
+B("c05-sliding-unguarded", "C05", "C05.R3", (L + "sliding_tile_puzzle/env.py", "SlidingTilePuzzle._move_empty_tile", "expr", "lambda: (puzzle, empty_tile_position)", "lambda: (puzzle, new_empty_tile_position)"))
+T("c05-twin-snake-logical-or", "C05", (R + "snake/env.py", "Snake.step", "expr", "~is_valid | snake_completed | (step_count >= self.time_limit)", "jnp.logical_or(jnp.logical_or(snake_completed, jnp.logical_not(is_valid)), step_count >= self.time_limit)"))
